@@ -7,6 +7,7 @@ import (
 	"fmt"
 	"os"
 	"sort"
+	"strconv"
 	"strings"
 	"sync"
 	"testing"
@@ -184,6 +185,10 @@ func (e *c10Env) checkRevision(what string, prev, got types.V2FileContract, boun
 
 var c10Timeout = 30 * time.Second
 
+// lastGenericN is how many leaves / slices the last generic mutation could
+// choose from (the enumeration walks them all).
+var lastGenericN int
+
 // ---------------------------------------------------------------- executor
 
 type c10Outcome struct {
@@ -235,6 +240,7 @@ func runC10With(c C10Case, cs *kit.CaseStats, raw func(idx int, wire []byte) []b
 		out = runC10Plain(ctx, c, env)
 	}
 	applied, differs, harness := env.host.Status()
+	lastGenericN = env.host.GenericN
 	if harness != "" {
 		return fmt.Errorf("HARNESS: %s", harness)
 	}
@@ -639,16 +645,50 @@ func TestC10Enum(t *testing.T) {
 		}
 		d.Case(c, cs, err)
 	}
+	shard, shards := 0, 1
+	if v, err := strconv.Atoi(os.Getenv("VERIF_SHARDS")); err == nil && v > 1 {
+		shards = v
+		shard, _ = strconv.Atoi(os.Getenv("VERIF_SHARD"))
+	}
+	unit := 0
+	mine := func() bool { unit++; return (unit-1)%shards == shard }
 	for _, rpc := range rhpc.RPCs {
 		for pi, ps := range presets {
 			if (rpc == "write") && pi > 0 && !kit.Thorough() {
 				continue // each write hashes 4 MiB on the client
 			}
-			c := C10Case{RPC: rpc, N: ps.n, P: ps.p}
-			cs := &kit.CaseStats{}
-			report(c, cs, c10Prop.SafeRun(c, cs))
+			if mine() {
+				c := C10Case{RPC: rpc, N: ps.n, P: ps.p}
+				cs := &kit.CaseStats{}
+				report(c, cs, c10Prop.SafeRun(c, cs))
+			}
 			for msg, kinds := range rhpc.Kinds[rpc] {
 				for _, k := range kinds {
+					if !mine() {
+						continue
+					}
+					if rhpc.IsGeneric(k) {
+						// every leaf / slice of the message (first preset only in quick)
+						if pi > 0 && !kit.Thorough() {
+							continue
+						}
+						bs := []int{0}
+						if k == "g-flip" {
+							bs = []int{0, 13}
+						}
+						for a, n := 0, 1; a < n && a < 400; a++ {
+							for _, b := range bs {
+								c := C10Case{RPC: rpc, N: ps.n, P: ps.p, Mut: rhpc.Mut{Msg: msg, Kind: k, A: a, B: b}}
+								cs := &kit.CaseStats{}
+								lastGenericN = 0
+								report(c, cs, c10Prop.SafeRun(c, cs))
+								if lastGenericN > n {
+									n = lastGenericN
+								}
+							}
+						}
+						continue
+					}
 					for vi, v := range variants {
 						if vi > 0 && (k == "rpc-error" || k == "close" || strings.HasSuffix(k, "-zero") || strings.HasSuffix(k, "-empty")) {
 							continue
@@ -668,6 +708,9 @@ func TestC10Enum(t *testing.T) {
 	// consistent-lie families are run for every contract size 2..9, every
 	// requested index and a few alternatives
 	for n := 2; n <= 9; n++ {
+		if !mine() {
+			continue
+		}
 		for idx := 0; idx < n; idx++ {
 			for a := 0; a < 3; a++ {
 				for k := 0; k < 2; k++ {
